@@ -12,8 +12,17 @@ use std::collections::BTreeMap;
 use std::path::{Path, PathBuf};
 use std::process::{Command, Stdio};
 
-pub const BIN_SOLVE: &str = "/verif/target/repo/release/crustabri";
-pub const BIN_ICCMA: &str = "/verif/target/repo/release/crustabri_iccma23";
+fn repo_bin(name: &str) -> String {
+    format!("{}/repo/release/{}", std::env::var("CVX_TARGET_DIR").unwrap_or_else(|_| format!("{}/target", crate::report::verif_dir())), name)
+}
+pub fn bin_solve() -> &'static str {
+    static P: std::sync::OnceLock<String> = std::sync::OnceLock::new();
+    P.get_or_init(|| repo_bin("crustabri"))
+}
+pub fn bin_iccma() -> &'static str {
+    static P: std::sync::OnceLock<String> = std::sync::OnceLock::new();
+    P.get_or_init(|| repo_bin("crustabri_iccma23"))
+}
 const APX_NAMES: [&str; 8] = ["a", "b", "c", "d", "e", "f", "g", "h"];
 
 #[derive(Clone, Debug)]
@@ -279,7 +288,7 @@ fn sweep_graph(dir: &Path, idx: usize, g: &Graph, level: u8, spellings: bool) ->
                         a.push("-a".into());
                         a.push((x + 1).to_string());
                     }
-                    configs.push((Invocation { bin: BIN_ICCMA, args: a }, true, true, false));
+                    configs.push((Invocation { bin: bin_iccma(), args: a }, true, true, false));
                     // crustabri solve
                     let readers: Vec<(Option<&str>, &PathBuf, bool)> = if full { vec![(Some("apx"), &f_apx, false), (Some("iccma23"), &f_af, true), (None, &f_af, true)] } else { vec![(Some("apx"), &f_apx, false), (None, &f_af, true)] };
                     for (ri, (reader, file, iccma)) in readers.into_iter().enumerate() {
@@ -307,7 +316,7 @@ fn sweep_graph(dir: &Path, idx: usize, g: &Graph, level: u8, spellings: bool) ->
                                         a.push("-a".into());
                                         a.push(if iccma { (x + 1).to_string() } else { APX_NAMES[x].to_string() });
                                     }
-                                    configs.push((Invocation { bin: BIN_SOLVE, args: a }, cert, iccma, log != "off"));
+                                    configs.push((Invocation { bin: bin_solve(), args: a }, cert, iccma, log != "off"));
                                 }
                             }
                         }
@@ -368,23 +377,23 @@ fn malformed_invocations(dir: &Path) -> Vec<(String, Invocation)> {
                 a.push("-a".into());
                 a.push(if *reader == "apx" { "a".into() } else { "1".into() });
             }
-            out.push((format!("file:{}", class), Invocation { bin: BIN_SOLVE, args: a.clone() }));
+            out.push((format!("file:{}", class), Invocation { bin: bin_solve(), args: a.clone() }));
             let mut b = a.clone();
             b[8] = "info".into();
-            out.push((format!("file:{}", class), Invocation { bin: BIN_SOLVE, args: b }));
+            out.push((format!("file:{}", class), Invocation { bin: bin_solve(), args: b }));
             if *reader == "iccma23" {
                 let mut w = vec!["-f".to_string(), path.clone(), "-p".into(), p.into()];
                 if !p.starts_with("SE") {
                     w.push("-a".into());
                     w.push("1".into());
                 }
-                out.push((format!("file:{}", class), Invocation { bin: BIN_ICCMA, args: w }));
+                out.push((format!("file:{}", class), Invocation { bin: bin_iccma(), args: w }));
             }
         }
     }
     // problems
     for (class, p) in [("unknown_query", Some("XX-ST")), ("unknown_semantics", Some("SE-XX")), ("no_hyphen", Some("SEST")), ("empty", Some("")), ("trailing_garbage", Some("SE-ST-X")), ("near_miss", Some("SE-S")), ("near_miss2", Some("DCCO")), ("missing", None)] {
-        for (bin, pre) in [(BIN_SOLVE, vec!["solve"]), (BIN_ICCMA, vec![])] {
+        for (bin, pre) in [(bin_solve(), vec!["solve"]), (bin_iccma(), vec![])] {
             for file in [&good_af] {
                 let mut a: Vec<String> = pre.iter().map(|s| s.to_string()).collect();
                 a.extend(["-f".to_string(), file.clone()]);
@@ -394,7 +403,7 @@ fn malformed_invocations(dir: &Path) -> Vec<(String, Invocation)> {
                 }
                 a.extend(["-a".to_string(), "1".into()]);
                 out.push((format!("problem:{}", class), Invocation { bin, args: a.clone() }));
-                if bin == BIN_SOLVE {
+                if bin == bin_solve() {
                     let mut b = a.clone();
                     b.extend(["--logging-level".to_string(), "off".into()]);
                     out.push((format!("problem:{}", class), Invocation { bin, args: b }));
@@ -405,12 +414,12 @@ fn malformed_invocations(dir: &Path) -> Vec<(String, Invocation)> {
     // arguments
     for (class, a_opt) in [("missing", vec![]), ("unknown", vec!["-a", "7"]), ("zero", vec!["-a", "0"]), ("n_plus_one", vec!["-a", "3"]), ("negative", vec!["-a", "-1"]), ("label_of_other_format", vec!["-a", "a"]), ("twice", vec!["-a", "1", "-a", "2"]), ("empty", vec!["-a", ""])] {
         for p in ["DC-CO", "DS-PR", "DC-ST", "DS-STG", "DC-ID", "DS-GR"] {
-            for (bin, pre) in [(BIN_SOLVE, vec!["solve"]), (BIN_ICCMA, vec![])] {
+            for (bin, pre) in [(bin_solve(), vec!["solve"]), (bin_iccma(), vec![])] {
                 let mut a: Vec<String> = pre.iter().map(|s| s.to_string()).collect();
                 a.extend(["-f".to_string(), good_af.clone(), "-p".into(), p.into()]);
                 a.extend(a_opt.iter().map(|s| s.to_string()));
                 out.push((format!("argument:{}", class), Invocation { bin, args: a.clone() }));
-                if bin == BIN_SOLVE {
+                if bin == bin_solve() {
                     let mut b = a.clone();
                     b.extend(["--logging-level".to_string(), "off".into(), "-c".into()]);
                     out.push((format!("argument:{}", class), Invocation { bin, args: b }));
@@ -423,31 +432,31 @@ fn malformed_invocations(dir: &Path) -> Vec<(String, Invocation)> {
             if class == "unknown" {
                 a.extend(["-a".to_string(), "zz".into()]);
             }
-            out.push((format!("argument:{}", class), Invocation { bin: BIN_SOLVE, args: a }));
+            out.push((format!("argument:{}", class), Invocation { bin: bin_solve(), args: a }));
         }
     }
     // options
-    out.push(("option:unknown_option".into(), Invocation { bin: BIN_SOLVE, args: vec!["solve".into(), "-f".into(), good_af.clone(), "-p".into(), "SE-ST".into(), "--frobnicate".into()] }));
-    out.push(("option:unknown_option".into(), Invocation { bin: BIN_ICCMA, args: vec!["-f".into(), good_af.clone(), "-p".into(), "SE-ST".into(), "--frobnicate".into()] }));
-    out.push(("option:unknown_subcommand".into(), Invocation { bin: BIN_SOLVE, args: vec!["resolve".into(), "-f".into(), good_af.clone(), "-p".into(), "SE-ST".into()] }));
-    out.push(("option:no_subcommand".into(), Invocation { bin: BIN_SOLVE, args: vec!["-f".into(), good_af.clone(), "-p".into(), "SE-ST".into()] }));
-    out.push(("option:unknown_encoding".into(), Invocation { bin: BIN_SOLVE, args: vec!["solve".into(), "-f".into(), good_af.clone(), "-p".into(), "SE-PR".into(), "--encoding".into(), "fast".into()] }));
-    out.push(("option:unknown_reader".into(), Invocation { bin: BIN_SOLVE, args: vec!["solve".into(), "-f".into(), good_af.clone(), "-p".into(), "SE-PR".into(), "-r".into(), "tgf".into()] }));
-    out.push(("option:unsupported_reader".into(), Invocation { bin: BIN_SOLVE, args: vec!["solve".into(), "-f".into(), good_af.clone(), "-p".into(), "SE-PR".into(), "-r".into(), "iccma23_aba".into()] }));
-    out.push(("option:missing_file_option".into(), Invocation { bin: BIN_SOLVE, args: vec!["solve".into(), "-p".into(), "SE-ST".into()] }));
-    out.push(("option:missing_file_option".into(), Invocation { bin: BIN_ICCMA, args: vec!["-p".into(), "SE-ST".into()] }));
-    out.push(("option:file_twice".into(), Invocation { bin: BIN_SOLVE, args: vec!["solve".into(), "-f".into(), good_af.clone(), "-f".into(), good_af.clone(), "-p".into(), "SE-ST".into()] }));
-    out.push(("option:external_solver_missing".into(), Invocation { bin: BIN_SOLVE, args: vec!["solve".into(), "-f".into(), good_af.clone(), "-p".into(), "SE-ST".into(), "--external-sat-solver".into(), "/nonexistent/solver".into(), "--logging-level".into(), "off".into()] }));
-    out.push(("option:external_opt_without_solver".into(), Invocation { bin: BIN_SOLVE, args: vec!["solve".into(), "-f".into(), good_af.clone(), "-p".into(), "SE-ST".into(), "--external-sat-solver-opt".into(), "x".into()] }));
+    out.push(("option:unknown_option".into(), Invocation { bin: bin_solve(), args: vec!["solve".into(), "-f".into(), good_af.clone(), "-p".into(), "SE-ST".into(), "--frobnicate".into()] }));
+    out.push(("option:unknown_option".into(), Invocation { bin: bin_iccma(), args: vec!["-f".into(), good_af.clone(), "-p".into(), "SE-ST".into(), "--frobnicate".into()] }));
+    out.push(("option:unknown_subcommand".into(), Invocation { bin: bin_solve(), args: vec!["resolve".into(), "-f".into(), good_af.clone(), "-p".into(), "SE-ST".into()] }));
+    out.push(("option:no_subcommand".into(), Invocation { bin: bin_solve(), args: vec!["-f".into(), good_af.clone(), "-p".into(), "SE-ST".into()] }));
+    out.push(("option:unknown_encoding".into(), Invocation { bin: bin_solve(), args: vec!["solve".into(), "-f".into(), good_af.clone(), "-p".into(), "SE-PR".into(), "--encoding".into(), "fast".into()] }));
+    out.push(("option:unknown_reader".into(), Invocation { bin: bin_solve(), args: vec!["solve".into(), "-f".into(), good_af.clone(), "-p".into(), "SE-PR".into(), "-r".into(), "tgf".into()] }));
+    out.push(("option:unsupported_reader".into(), Invocation { bin: bin_solve(), args: vec!["solve".into(), "-f".into(), good_af.clone(), "-p".into(), "SE-PR".into(), "-r".into(), "iccma23_aba".into()] }));
+    out.push(("option:missing_file_option".into(), Invocation { bin: bin_solve(), args: vec!["solve".into(), "-p".into(), "SE-ST".into()] }));
+    out.push(("option:missing_file_option".into(), Invocation { bin: bin_iccma(), args: vec!["-p".into(), "SE-ST".into()] }));
+    out.push(("option:file_twice".into(), Invocation { bin: bin_solve(), args: vec!["solve".into(), "-f".into(), good_af.clone(), "-f".into(), good_af.clone(), "-p".into(), "SE-ST".into()] }));
+    out.push(("option:external_solver_missing".into(), Invocation { bin: bin_solve(), args: vec!["solve".into(), "-f".into(), good_af.clone(), "-p".into(), "SE-ST".into(), "--external-sat-solver".into(), "/nonexistent/solver".into(), "--logging-level".into(), "off".into()] }));
+    out.push(("option:external_opt_without_solver".into(), Invocation { bin: bin_solve(), args: vec!["solve".into(), "-f".into(), good_af.clone(), "-p".into(), "SE-ST".into(), "--external-sat-solver-opt".into(), "x".into()] }));
     out
 }
 
 fn check_problems_listing(acc: &mut Acc) {
     let expected: std::collections::BTreeSet<String> = ["SE", "DC", "DS"].iter().flat_map(|q| ALL_SEMS.iter().map(move |s| format!("{}-{}", q, s.name()))).collect();
     for inv in [
-        Invocation { bin: BIN_ICCMA, args: vec!["--problems".into()] },
-        Invocation { bin: BIN_SOLVE, args: vec!["problems".into(), "--logging-level".into(), "off".into()] },
-        Invocation { bin: BIN_SOLVE, args: vec!["problems".into()] },
+        Invocation { bin: bin_iccma(), args: vec!["--problems".into()] },
+        Invocation { bin: bin_solve(), args: vec!["problems".into(), "--logging-level".into(), "off".into()] },
+        Invocation { bin: bin_solve(), args: vec!["problems".into()] },
     ] {
         let r = run(&inv);
         acc.processes += 1;
@@ -468,7 +477,7 @@ fn check_problems_listing(acc: &mut Acc) {
 pub fn run_check(tier: Tier) -> i32 {
     let mut rep = Report::new("C05", tier);
     let thorough = tier == Tier::Thorough;
-    if !Path::new(BIN_SOLVE).exists() || !Path::new(BIN_ICCMA).exists() {
+    if !Path::new(bin_solve()).exists() || !Path::new(bin_iccma()).exists() {
         rep.machinery_errors.push("repository binaries not built (run ./check or ./setup.sh)".into());
         return rep.finish();
     }
@@ -533,8 +542,8 @@ pub fn run_check(tier: Tier) -> i32 {
         std::fs::write(&p, b"p af 3\n# caf\xe9\n1 2\n2 3\n".to_vec()).unwrap();
         for (kind, sem, arg) in [(QKind::SE, Sem::GR, None), (QKind::DC, Sem::CO, Some(2usize)), (QKind::DS, Sem::PR, Some(1usize)), (QKind::SE, Sem::ST, None)] {
             let problem = format!("{}-{}", kind.name(), sem.name());
-            for bin in [BIN_ICCMA, BIN_SOLVE] {
-                let mut a: Vec<String> = if bin == BIN_SOLVE { vec!["solve".into(), "--logging-level".into(), "off".into(), "-c".into()] } else { vec![] };
+            for bin in [bin_iccma(), bin_solve()] {
+                let mut a: Vec<String> = if bin == bin_solve() { vec!["solve".into(), "--logging-level".into(), "off".into(), "-c".into()] } else { vec![] };
                 a.extend(["-f".to_string(), p.display().to_string(), "-p".into(), problem.clone()]);
                 if let Some(x) = arg {
                     a.extend(["-a".to_string(), (x + 1).to_string()]);
